@@ -35,7 +35,9 @@
     * `call_subflow_uid_fresh`, `uids_pairwise_distinct(_step)`, `interrupter_lookup_unique`, `shape_has_uids_ok` — the uid a
       subflow instance gets is fresh; "the uids of the flow states are pairwise distinct" is an invariant of `compute_next_state`
       for ALL flow configs and events (the hypothesis the call / return theorems carry in `V1Stack.Shape`);
-    * `interp_is_counter_alloc`, `siteAlloc_injective`, `call_site_uid_counterexample` — the interpreter over an allocation policy
+    * `uid_names_irrelevant(_states)` — the interpreter that names its flow states by ANY injective naming of the counter (uuid4) decides
+      like `V1Interp` and reaches the same states up to the renaming: only freshness matters;
+    * `interp_is_counter_alloc`, `siteAlloc_injective`, `siteAlloc_not_fresh`, `call_site_uid_counterexample` — the interpreter over an allocation policy
       (`Models/V1Uid.lean`): with the counter it IS `V1Interp`; with uids derived from the call site the flow
       `while $i < 2: do ask item; $i = $i + 1` runs ahead of the subflow it called (kernel-checked).
   What is NOT carried by a theorem (function-level theorems + correspondence + oracle only): histories with several dialog
@@ -1149,6 +1151,39 @@ example : (slideWithSubflows true SUB_FUEL loopCfgs
   decide +kernel
 
 example : siteAlloc.sub 5 { uid := 0, flowId := "collect items", head := 3 } = 7 := by decide
+
+/-- **The NAMES of the uids do not matter — only that they never repeat.**  `new_uuid()` returns uuid4 strings, the model hands out
+    a counter.  For EVERY injective naming `g` of the allocation counter (a sequence of names that never repeats), the
+    interpreter that hands out `g 0, g 1, …` decides, for all flow configs and every history, exactly what `V1Interp` decides:
+    uids are only ever compared for equality (`interrupted_by` lookup, `next_step_by_flow_uid`). -/
+theorem uid_names_irrelevant (g : Nat → Nat) (hg : Function.Injective g) (repaired : Bool) (cfgs : Cfgs) (history : List Event) (config : Ctx) :
+    computeNextStepsU (injAlloc g) repaired cfgs history config = computeNextSteps repaired cfgs history config :=
+  computeNextSteps_inj g hg repaired cfgs history config
+
+/-- … and it reaches, from renamed states, the renamed states (`mapSt g`: every uid, `interrupted_by` and
+    `next_step_by_flow_uid` renamed): what the state tie of the harness compares up to. -/
+theorem uid_names_irrelevant_states (g : Nat → Nat) (hg : Function.Injective g) (repaired : Bool) (cfgs : Cfgs) (history : List Event) (st : State) :
+    replayU (injAlloc g) repaired cfgs history (mapSt g st) =
+      (match replay repaired cfgs history st with
+       | .ok s => .ok (mapSt g s)
+       | .error e => .error e) := by
+  rw [replay_map g hg]; rfl
+
+/-- non-vacuity: an injective naming that is not the identity, and a history on which it names the subflow instances 7 and 9 -/
+example : Function.Injective (fun n : Nat => 2 * n + 5) := by intro a b h; simp at h; omega
+example : (replayU (injAlloc (fun n => 2 * n + 5)) true loopCfgs (loopHistory.take 3) {}).toOption.map (fun st => st.flows.map (·.uid)) = some [5, 7, 9] := by
+  decide +kernel
+
+/-- what the call-site policy lacks: its uid does not depend on WHEN the call happens -/
+theorem siteAlloc_not_fresh (c c' : Nat) (caller : FS) : siteAlloc.sub c caller = siteAlloc.sub c' caller := rfl
+
+/-- non-vacuity of `interrupter_lookup_unique` / `shape_has_uids_ok`, and a state that is NOT `UidsOK` -/
+example : UidsOK { flows := [{ uid := 0, flowId := "a", head := 1 }, { uid := 1, flowId := "b", head := 0 }], ctr := 2 } ∧
+    ({ uid := 1, flowId := "b", head := 0 } : FS) ∈ [({ uid := 0, flowId := "a", head := 1 } : FS), { uid := 1, flowId := "b", head := 0 }] := by
+  decide
+example : Shape [] {} [] := ⟨by simp, by simp, by simp, by simp, by simp, by simp, by simp⟩
+example : ¬ UidsOK { flows := [{ uid := 7, flowId := "ask item", head := -2, status := .completed }, { uid := 7, flowId := "ask item", head := 0 }], ctr := 8 } := by
+  decide
 
 
 end NemoVerif.C14
